@@ -11,18 +11,21 @@
 (*    "lk":{"match":b,"norm":..,"params":[..]}}                                               *)
 (*        what the dispatcher selected for the current request when the endpoints were       *)
 (*        declared in the order ord                                                          *)
+(* The points the statement leaves open (EndpointPolicyP modes) are open per IMPLEMENTATION: *)
+(* `modes` = the readings that explain every outcome seen so far (never reset).              *)
 (* An out event is a step of the specification iff EndpointPolicyP accepts the outcome      *)
-(* (Verdict = "ok") and it equals the outcome of every earlier order for the same request   *)
+(* under a reading still open and it equals the outcome of every earlier order for the same request   *)
 (* (order independence).  With TolerateShadow = TRUE the recorded finding class "shadow"    *)
 (* is let through and reported on a line  <<"KF-SHADOW", line>>; a rejection because of     *)
 (* order dependence alone is announced on a line  <<"ORDER-DEP", line>>, any other          *)
 (* rejection on a line  <<"NOT-ACCEPTED", line, verdict>>.                                  *)
 EXTENDS TraceLib, EndpointPolicyP, TLC
 
-CONSTANT TolerateShadow
+CONSTANTS TolerateShadow,
+          ModeSet   \* the readings (EndpointPolicyP modes) still open for this implementation
 
-VARIABLES l, D, rq, first
-tvars == <<l, D, rq, first>>
+VARIABLES l, D, rq, first, modes
+tvars == <<l, D, rq, first, modes>>
 
 NoOut == [none |-> TRUE]
 
@@ -34,26 +37,31 @@ SelOf(s)  == {[r |-> x.r, norm |-> x.norm, params |-> {<<q[1], q[2]>> : q \in Se
 OutOf(e)  == [sel |-> SelOf(e.sel), dsel |-> SelOf(e.dsel),
               lk |-> [match |-> e.lk.match, norm |-> e.lk.norm, params |-> {<<q[1], q[2]>> : q \in SeqSet(e.lk.params)}]]
 
-TInit == l = 1 /\ D = {} /\ rq = NoOut /\ first = NoOut
+TInit == l = 1 /\ D = {} /\ rq = NoOut /\ first = NoOut /\ modes = ModeSet
 
 TGroup == /\ Consume("group")
           /\ D' = {[m |-> d.m, p |-> Mk(d.h, d.p), r |-> d.r, g |-> d.g,
                     re |-> d.pl = "on", ge |-> d.pl \in {"on", "donly"}] : d \in SeqSet(Ev.decls)}
-          /\ rq' = NoOut /\ first' = NoOut
+          /\ rq' = NoOut /\ first' = NoOut /\ UNCHANGED modes
 
 TReq == /\ Consume("req")
         /\ rq' = [m |-> Ev.m, u |-> Mk(Ev.h, Ev.p)]
-        /\ first' = NoOut /\ UNCHANGED D
+        /\ first' = NoOut /\ UNCHANGED <<D, modes>>
 
 TOut == /\ Consume("out") /\ rq # NoOut
         /\ LET out == OutOf(Ev)
-               v   == Verdict(D, rq.m, rq.u, out)
-           IN /\ IF v = "ok" THEN TRUE
-                 ELSE IF v = "shadow" /\ TolerateShadow THEN PrintT(<<"KF-SHADOW", l + 1>>)
-                 ELSE PrintT(<<"NOT-ACCEPTED", l + 1, v>>) /\ FALSE
+               okm == AM(D, rq.m, rq.u, out) \cap modes
+               shm == IF TolerateShadow THEN SM(D, rq.m, rq.u, out) \cap modes ELSE {}
+               nm  == okm \cup shm
+           IN /\ IF okm # {} THEN TRUE
+                 ELSE IF shm # {} THEN PrintT(<<"KF-SHADOW", l + 1>>)
+                 ELSE PrintT(<<"NOT-ACCEPTED", l + 1, modes>>) /\ FALSE
               /\ IF first = NoOut \/ first = out THEN TRUE
                  ELSE PrintT(<<"ORDER-DEP", l + 1>>) /\ FALSE
               /\ first' = out
+              \* one reading for everything: only the readings that explain this outcome too stay open
+              /\ modes' = nm
+              /\ IF nm = modes THEN TRUE ELSE PrintT(<<"MODES", l + 1, nm>>)
         /\ UNCHANGED <<D, rq>>
 
 TNext == TGroup \/ TReq \/ TOut
